@@ -518,6 +518,15 @@ for _e in EXC_PARENTS:
     BUILTINS.setdefault(_e, ExcClass(_e))
 BUILTINS['BaseException'] = ExcClass('BaseException')
 BUILTINS['ZeroDivisionError'] = ExcClass('ZeroDivisionError')
+def _setattr(interp, st, args, kwargs):
+    o, name, v = args
+    if not isinstance(name, str):
+        raise Unsupported('setattr with a symbolic attribute name')
+    ops.setattr_(interp, st, o, name, v)
+    yield st, None
+
+
+BUILTINS['setattr'] = Model('setattr', _setattr)
 BUILTINS['type'] = Model('type', lambda i, s, a, k: iter([(s, TypeObj(py_type_name(s, a[0]) or '?'))]))
 
 
@@ -573,6 +582,19 @@ def str_method(interp, st, recv, name, args, kwargs):
     elif name == 'encode' and k == STR:
         f = interp.uf('encode_utf8', STR, BYTES)
         yield st, SV(BYTES, f(z))
+    elif name in ('rstrip', 'lstrip', 'strip') and len(args) <= 1:
+        # the result is what is left after removing characters of the set from the end(s): a factor of the receiver,
+        # equal to it when nothing can be removed (an uninterpreted function with those two laws)
+        chars = lift(args[0], k).z if args else z3.StringVal(' \t\n\r\x0b\x0c')
+        r = interp.uf(f'{name}_{k.name()}', k, k, k)(z, chars)
+        if name == 'rstrip':
+            st.assume(z3.PrefixOf(r, z))
+        elif name == 'lstrip':
+            st.assume(z3.SuffixOf(r, z))
+        else:
+            st.assume(z3.Contains(z, r))
+        st.assume(z3.Implies(z3.Length(z) == 0, r == z))
+        yield st, SV(k, r)
     elif name == 'lower' and not args:
         f = interp.uf('lower', k, k)
         yield st, SV(k, f(z))
@@ -844,6 +866,26 @@ def dict_method(interp, st, recv, name, args, kwargs):
                 yield s, v
             else:
                 yield s, Raised(Exc('KeyError', (args[0],)))
+    elif name == 'pop' and len(args) == 2:
+        zk = to_ty(interp, st, args[0], cls.kt).z
+        has = st.heap.read(cls, 'has', recv.z)
+        for s, ok in interp.branch(st, z3.Select(has, zk)):
+            if ok:
+                v = SV(cls.vt, z3.Select(s.heap.read(cls, 'val', recv.z), zk))
+                s.heap.write(cls, 'has', recv.z, z3.Store(s.heap.read(cls, 'has', recv.z), zk, z3.BoolVal(False)))
+                s.heap.write(cls, 'n', recv.z, s.heap.read(cls, 'n', recv.z) - 1)
+                s.emit('dict_del', target=recv, key=args[0])
+                yield s, v
+            else:
+                yield s, args[1]
+    elif name == 'copy' and not args:
+        r = ops.new_heap(st, cls)
+        for f in ('has', 'val', 'n', 'order'):
+            try:
+                st.heap.write(cls, f, r.z, st.heap.read(cls, f, recv.z))
+            except Exception:
+                pass
+        yield st, r
     elif name == 'get':
         zk = to_ty(interp, st, args[0], cls.kt).z
         has = st.heap.read(cls, 'has', recv.z)
@@ -866,7 +908,8 @@ def record_method(interp, st, recv, name, args, kwargs):
         elif key in getattr(cls, 'optional', {}):
             yield st, args[1] if len(args) > 1 else None
         else:
-            raise Unsupported(f'record {cls.name}.get({key!r})')
+            # the record has exactly its declared keys: any other key is absent
+            yield st, args[1] if len(args) > 1 else None
     else:
         raise Unsupported(f'record method {name}')
 
